@@ -20,6 +20,11 @@ var schEnumNames = []string{"Aa", "Bb", "Cc", "Dd", "Nope", "Yes"}
 var schEnumStrs = []string{"x", "y", "zz", "w w", "1"}
 var schDelims = []string{":", ",", ";", "|", "/"}
 
+// stringprefix unions with a delimiter (schema API only): multi-character delimiters, and
+// discriminants that are prefixes of one another
+var schSPDelims = []string{"=", "->", "~~", "=>", "__"}
+var schSPDiscs = []string{"s", "st", "simple", "simpleton", "e", "b", "cx", "c"}
+
 func (r *Rng) pick(l []string) string { return l[r.Intn(len(l))] }
 
 func (r *Rng) distinct(pool []string, n int) []string {
@@ -104,7 +109,12 @@ func (r *Rng) schStringTy(cfg *SchGenCfg, depth int, usedDelims string) *SchTy {
 func (r *Rng) schStringPrefix(cfg *SchGenCfg, depth int, usedDelims string) *SchTy {
 	n := 1 + r.Intn(3)
 	t := &SchTy{K: 'U', URepr: 'p'}
-	for _, p := range r.distinct(schPrefixes, n) {
+	discs := schPrefixes
+	if r.Chance(50) {
+		t.Delim = r.pick(schSPDelims)
+		discs = schSPDiscs
+	}
+	for _, p := range r.distinct(discs, n) {
 		t.Members = append(t.Members, SchMember{Disc: p, Kind: 's', T: r.schStringTy(cfg, depth+1, usedDelims)})
 	}
 	return t
@@ -417,6 +427,11 @@ func (r *Rng) schSlot(t *SchTy, nul bool, level byte, m *SchMut, no string) *Val
 }
 
 func (r *Rng) schValue(t *SchTy, level byte, m *SchMut, no string) *Val {
+	if schHook != nil && (t.K == 'R' || t.K == 'U') {
+		if v := schHook(t, level); v != nil {
+			return v
+		}
+	}
 	if t.K != 'R' && t.K != 'U' && t.K != 'E' && t.K != 'L' && t.K != 'M' && t.K != 'A' && m.hit() {
 		m.note("retype")
 		want := map[byte]Kind{'B': KBool, 'I': KInt, 'D': KFloat, 'S': KString, 'Y': KBytes, 'K': KLink, 'A': KNull}[t.K]
@@ -571,16 +586,35 @@ func (r *Rng) schUnionValue(t *SchTy, level byte, m *SchMut, no string) *Val {
 		return inner // a departure happened below
 	}
 	if m.hit() {
-		switch r.Intn(2) {
+		d, dl := mem.Disc, t.Delim
+		switch r.Intn(8) {
 		case 0:
 			m.note("prefix-unknown")
-			return Str("??" + inner.S)
-		default:
+			return Str("??" + dl + inner.S)
+		case 1:
 			m.note("prefix-none")
 			return Str("")
+		case 2:
+			m.note("prefix-disc-alone")
+			return Str(d)
+		case 3:
+			m.note("prefix-no-delim")
+			return Str(d + inner.S)
+		case 4:
+			m.note("prefix-longer-disc")
+			return Str(d + "x" + dl + inner.S)
+		case 5:
+			m.note("prefix-shorter-disc")
+			return Str(d[:len(d)-1] + dl + inner.S)
+		case 6:
+			m.note("prefix-delim-only")
+			return Str(dl + inner.S)
+		default:
+			m.note("prefix-empty-rest")
+			return Str(d + dl)
 		}
 	}
-	return Str(mem.Disc + inner.S)
+	return Str(mem.Disc + t.Delim + inner.S)
 }
 
 func (r *Rng) schStructValue(t *SchTy, level byte, m *SchMut, no string) *Val {
